@@ -132,6 +132,12 @@ RefOrderHazard(dels, purged) ==
        \* the other direction, p.A.far -> r.C: r's evolution deletes C, the purge of p
        \* then has to delete A, whose relation names r.C
        \/ /\ "farM2M" \in feats /\ cByEvo /\ aByPurge
+       \* the referenced model went in an EARLIER upgrade, while the referrer's app was already
+       \* stale (uninstalled, its models still in the signature): the signature has named a model
+       \* that does not exist ever since, and the model that names it cannot be built to be dropped
+       \/ /\ RefsIntoP(feats) # {} /\ ~refsGone
+          /\ (fByEvo \/ fByPurge) /\ ("p" \notin DOMAIN sig \/ "A" \notin sig["p"])
+       \/ /\ "farM2M" \in feats /\ aByPurge /\ ("r" \notin DOMAIN sig \/ "C" \notin sig["r"])
 
 RECURSIVE SetToSeq(_)
 SetToSeq(S) == IF S = {} THEN <<>> ELSE LET x == CHOOSE y \in S : TRUE IN <<x>> \o SetToSeq(S \ {x})
